@@ -383,7 +383,7 @@ func instrumentFile(path, name string) (string, *fileInstr, error) {
 
 // genOverlay writes the instrumented files and the overlay JSON into dir and
 // returns the path of the JSON.
-func genOverlay(dir string) (string, error) {
+func genOverlay(dir string, propID string) (string, error) {
 	os.RemoveAll(dir)
 	if err := os.MkdirAll(dir, 0o755); err != nil {
 		return "", err
@@ -432,21 +432,18 @@ func genOverlay(dir string) (string, error) {
 			}
 		}
 	}
-	// test-only exports: shim/export/<pkg path with _>/*.go are added to the package
-	edir := filepath.Join(verifDir, "shim", "export")
-	if pkgs, err := os.ReadDir(edir); err == nil {
-		for _, p := range pkgs {
-			if !p.IsDir() {
-				continue
-			}
-			files, _ := os.ReadDir(filepath.Join(edir, p.Name()))
-			for _, f := range files {
-				if strings.HasSuffix(f.Name(), ".go") {
-					replace[filepath.Join(repoDir, strings.ReplaceAll(p.Name(), "_", "/"), f.Name())] = filepath.Join(edir, p.Name(), f.Name())
-				}
-			}
+	// test-only exports of one property: shim/export/<PROP>/<pkg path>/*.go are
+	// added to that package, for that property's build only (so a rename of an
+	// unexported identifier cannot break the other properties' checks)
+	edir := filepath.Join(verifDir, "shim", "export", propID)
+	filepath.WalkDir(edir, func(path string, d os.DirEntry, err error) error {
+		if err != nil || d.IsDir() || !strings.HasSuffix(path, ".go") {
+			return nil
 		}
-	}
+		rel, _ := filepath.Rel(edir, path)
+		replace[filepath.Join(repoDir, rel)] = path
+		return nil
+	})
 	data, _ := json.MarshalIndent(map[string]any{"Replace": replace}, "", " ")
 	jp := filepath.Join(dir, "overlay.json")
 	if err := os.WriteFile(jp, data, 0o644); err != nil {
